@@ -497,7 +497,7 @@ def run(ctx):
         "(2) that reference table recomputed under PYTHONHASHSEED in {0,1,2,12345,random}; (3) %d multi-thread workloads under a controlled "
         "scheduler (scheduling points = line events in optimisation/colors/cm_colors/color_parser, call events elsewhere in the package): "
         "every schedule with <= 1 pre-emption at line granularity%s. non-trivial = sequences of >= 2 operations and schedules with >= 1 pre-emption."
-        % (depth, len(ops), len(WORKLOADS), "" if q else " and <= 2 pre-emptions at loop granularity (one point per loop iteration + calls of core/CLI functions) on one thread order of each workload")
+        % (depth, len(ops), len(WORKLOADS), "" if q else " and <= 2 pre-emptions at loop granularity (one point per loop iteration + calls of core/CLI functions) on workloads W1, W2r and W5")
     )
     # ---- references (fresh exec per operation) and hash seeds ----------------------------------------
     all_ops = sorted(set(ops) | {n for w in WORKLOADS.values() for n in w} | {"cli:empty_dir", "cli:only_cm_files", "bulk:raises_midway"}
@@ -524,7 +524,8 @@ def run(ctx):
     ops_r = ops[rot:] + ops[:rot]
     seqs = []
     for d in range(1, depth + 1):
-        base = ops_r if d < 3 else [o for o in ops_r if o not in ("mr:yellow/B1/m2", "mr:aaa/B1/m1", "cli:sheet/premium", "mr:rgba/B1/m1", "mr:hsl/B1/m1")][:24]
+        base = ops_r if d < 3 else [o for o in ops_r if o not in ("mr:yellow/B1/m2", "mr:aaa/B1/m1", "cli:sheet/premium", "mr:rgba/B1/m1", "mr:hsl/B1/m1")
+                                    and not o.startswith("mr:bw/")][:14]
         seqs += [list(s) for s in itertools.product(base, repeat=d)]
     # abnormal-termination prefix, then two queries on the same base pair differing in one setting (both orders)
     ABN = ["cli:empty_dir", "cli:only_cm_files", "bulk:raises_midway"]
@@ -553,7 +554,7 @@ def run(ctx):
             for pr in probes:
                 long_seqs.append([o] * kk + [pr, o])
     # (c) saturation: 12 distinct failing pairs under one setting, then the same 12 again (size-limited caches, ring buffers)
-    sat_settings = [(1, "aa"), (2, "aa")] if q else [(m_, v_) for m_ in (0, 1, 2) for v_ in ("aa", "vr")]
+    sat_settings = [(1, "aa"), (2, "aa")] if q else [(0, "aa"), (1, "aa"), (1, "vr"), (2, "aa")]
     for m_, v_ in sat_settings:
         names_ = ["sat:m%d/%s/%d" % (m_, v_, i_) for i_ in range(len(SAT_TEXTS))]
         long_seqs.append(names_ + names_)
@@ -628,7 +629,7 @@ def run(ctx):
         # (one thread order per workload: the mirrored order differs only in which thread starts, which the first pre-emption
         # already varies; all orders are explored in the <= 1 pre-emption pass above)
         for wname, names in WORKLOADS.items():
-            if wname not in ("W1", "W2r", "W3", "W4", "W6", "W5"):
+            if wname not in ("W1", "W2r", "W5"):
                 continue
             st, r = forked(exec_schedule, names, {}, lf, False, cf, loops)
             pts = r["points"]
